@@ -11,7 +11,7 @@ def check(ctx):
     whomay.schedule_sites(ctx, 'C01')
     whomay.priority_constants(ctx, 'C01')
     whomay.schedule_delay_exact(ctx, 'C01')
-    guards.nan_refused(ctx, 'C01', [('Timeout', '__init__', 'delay'), ('Environment', 'run', 'until')],
+    guards.nan_refused(ctx, 'C01', [('Timeout', '__init__', 'delay'), ('Environment', 'run', 'until'), ('Environment', '__init__', 'initial_time')],
                        'a NaN key breaks the heap order of the agenda: occurrences fire out of time order and the clock goes backwards')
     return ('Static analysis of the agenda mechanism: path tables of schedule/step/run/Timeout/Initialize/Interruption/'
             'trigger methods/Process._resume compared with reference tables (key shape (now+delay, priority, next id, '
